@@ -943,6 +943,13 @@ def evalE : Nat → FE → Ctx → St → Res V
         | .fuel => .fuel
       | r => r
     | .fcc k => .ok (.str (String.singleton (Char.ofNat k))) σ
+    | .accFn _ f =>
+      -- §11.1.5 PropertyAssignment : get / set …: "the result of creating a new Function object as specified in 13.2 …
+      -- Pass in the LexicalEnvironment of the running execution context as the Scope" (the object and the descriptor
+      -- object around it are allocated too; nothing can tell)
+      let (_, σ0) := σ.alloc { props := [], proto := some objProto, kind := .plain }
+      let (fv, σ1) := mkFunc σ0 f c.env
+      .ok fv σ1
     | .fnCtor f =>
       -- §15.3.2.1 step 11: the new function's [[Scope]] is the GLOBAL environment, whatever the caller's is
       let (fv, σ1) := mkFunc σ f 0
